@@ -200,7 +200,7 @@ func runC04(c *Ctx) {
 	c.AddCount("product_calls", int64(len(calls)))
 	c.ParallelFor(int64(len(calls)), func(w *Worker, i int64) { c04check(w, calls[i], i) })
 	// literal and '*' widths and precisions at the limits the format parser accepts (megabyte-sized outputs: a fixed handful)
-	th := thresholdCalls()
+	th := append(thresholdCalls(), scaleCalls()...)
 	c.AddCount("threshold_calls", int64(len(th)))
 	c.ParallelFor(int64(len(th)), func(w *Worker, i int64) { c04check(w, th[i], i) })
 	n := c.pick(3000000, 40000000)
@@ -269,4 +269,82 @@ func clip(s string, n int) string {
 		return s[:n]
 	}
 	return s
+}
+
+// scaleCalls: sizes between everyday use and the limits — many directives, many operands, argument indexes beyond 9,
+// deep nesting, long containers, big maps, long strings (batching, fixed-size tables and scratch space, 8- and 16-bit
+// counters, recursion guards). A fixed list; the oracle is the same differential as everywhere in C04.
+func scaleCalls() []*Call {
+	var out []*Call
+	mixed := func(i int) *D {
+		switch i % 5 {
+		case 0:
+			return dN("int", int64(i))
+		case 1:
+			return dS("string", "s"+itoa(i))
+		case 2:
+			return &D{K: "float64", F: float64(i) + 0.5}
+		case 3:
+			return dS("string", startM+"x")
+		}
+		return dN("bool", int64(i%2))
+	}
+	for _, n := range []int{10, 33, 64, 65, 100, 256, 257, 1000, 5000} {
+		var f1, f2 strings.Builder
+		var args, ints, strs, alt []*D
+		for i := 0; i < n; i++ {
+			f1.WriteString("%v|")
+			f2.WriteString([]string{"%d,", "%5s;", "%-8.2f ", "%q", "%t"}[i%5])
+			args = append(args, mixed(i))
+			ints = append(ints, dN("int", int64(i)))
+			strs = append(strs, dS("string", "s"+itoa(i)))
+			if i%3 == 0 {
+				alt = append(alt, dS("string", "a"))
+			} else {
+				alt = append(alt, dN("int", int64(i)))
+			}
+		}
+		out = append(out, &Call{Raw: QS(f1.String()), Args: args}, &Call{Raw: QS(f2.String()), Args: args},
+			&Call{Sp: true, Args: args}, &Call{Sp: true, Args: ints}, &Call{Sp: true, Args: strs}, &Call{Sp: true, Args: alt},
+			// surplus and missing operands at scale
+			&Call{Raw: QS(f1.String()), Args: args[:n/2]}, &Call{Raw: QS("%v|%v"), Args: args},
+			// explicit indexes far beyond 9
+			&Call{Raw: QS("%[" + itoa(n) + "]v|%[1]v|%[" + itoa(n-1) + "]v %v|%v|%[" + itoa(n+1) + "]v|%[" + itoa(n/2+1) + "]*v"), Args: ints},
+			// long containers
+			&Call{Raw: QS("%v|%d|%05x|%+v|%#v"), Args: []*D{dSub("ints", ints...), dSub("ints", ints...), dSub("ints", ints...), dSub("strs", strs...), dSub("slice", args...)}},
+			&Call{Raw: QS("%v|%q|%x|%6.2v"), Args: []*D{dSub("slice", args...), dSub("strs", strs...), dSub("strs", strs...), dSub("slice", args...)}})
+		// maps with n keys (sorted output), string and int keys
+		var mk, ik []*D
+		for i := 0; i < n; i++ {
+			mk = append(mk, dS("string", "k"+itoa((i*7919)%n)), mixed(i))
+			ik = append(ik, dN("int", int64((i*7919)%n-n/2)), dS("string", "v"+itoa(i)))
+		}
+		out = append(out, &Call{Raw: QS("%v|%+v|%#v"), Args: []*D{dSub("map", mk...), dSub("imap", ik...), dSub("map", mk...)}})
+	}
+	// nesting depth
+	for _, depth := range []int{5, 9, 12, 17, 33, 65, 129, 300} {
+		for _, leaf := range []*D{dN("int", 7), dS("string", "deep"+startM), dSub("map", dS("string", "k"), dS("string", "v"))} {
+			d := leaf
+			for i := 0; i < depth; i++ {
+				if i%3 == 2 {
+					d = dSub("map", dS("string", "k"+itoa(i)), d)
+				} else {
+					d = dSub("slice", dN("int", int64(i)), d)
+				}
+			}
+			out = append(out, &Call{Raw: QS("%v|%+v|%#v|%x|%5v|%q"), Args: []*D{d, d, d, d, d, d}}, &Call{Sp: true, Args: []*D{d, dS("string", "t"), d}})
+		}
+	}
+	// long strings and byte slices
+	for _, n := range []int{1000, 4096, 65535, 65536, 70001, 300000} {
+		str := strings.Repeat("ab"+startM+"c\nd"+endM+"é ", n/12+1)[:n]
+		for len(str) > 0 && !utf8.ValidString(str) {
+			str = str[:len(str)-1]
+		}
+		for _, f := range []string{"%s|", "%q|", "%x|", "% X|", "%.5s|", "%." + itoa(n-3) + "s|", "%" + itoa(n+10) + "s|", "%-" + itoa(n+10) + "q|", "%v|", "%#v|", "%+q|", "%d|"} {
+			out = append(out, &Call{Raw: QS("a" + f + "tail %d."), Args: []*D{dS("string", str), dN("int", 8)}},
+				&Call{Raw: QS("a" + f + "tail %d."), Args: []*D{dS("bytes", str), dN("int", 8)}})
+		}
+	}
+	return out
 }
